@@ -12,7 +12,7 @@ and the entity modules with `ast` and renders
 * which container class every `owner.cname` container is an instance of,
 * the statement lists of the role-link deleters (`del x.metadata`, `section.link = None`,
   `multi_tag.extents = None`),
-* the statement list of the breadth-first collection of `util/find.py`
+* the statement lists of the breadth-first collection of `util/find.py` (types and meaning: `Store/FindProg.lean`)
 
 as constants of the types below (`NixModel/Generated/DeleteShape.lean`). This file gives these
 statement lists a *meaning* over the HDF5 graph model; `Lemmas/C04Shape.lean` proves that the
@@ -215,26 +215,5 @@ def runRole (P : H5DeleteParams) (g : Graph) (o : Loc) : List RStmt → Except E
     else runRole P g o rest
   | .guardedDelItem name :: rest =>
     if g.hasChild o.key name then runRole P (g.delLink o.key name) o rest else runRole P g o rest
-
-/-! ## the breadth-first collection of `util/find.py` -/
-
-/-- the facts the translator establishes about `_find_sections` / `_find_sources` (any other shape
-is an `ExtractError`): the start entity is queued when it is of the searched class, the queue is
-consumed from the front (`pop(0)`), the children (`child.elem.<sub>`) are appended at the back
-*before* the filter is applied, a matching element is appended to the result -/
-structure FindShape where
-  sub : String
-  startQueued : Bool
-  popFront : Bool
-  childrenAtBack : Bool
-  resultAppend : Bool
-  deriving DecidableEq, Repr, Inhabited
-
-/-- the collection a `FindShape` describes, with no filter and no depth limit; `none`: a shape this
-model gives no meaning to -/
-def findKeys (sh : FindShape) (g : Graph) (k : Nat) : Option (List Nat) :=
-  if sh.startQueued && sh.popFront && sh.childrenAtBack && sh.resultAppend then
-    some (bfsKeys g sh.sub (g.nodes.length * g.nodes.length + 1) [k] [])
-  else none
 
 end Nix.Store.DelShape
